@@ -119,6 +119,12 @@ CHECKS = {
     text='Stops are delivered before the run loop, between instructions, inside delays, inside time-of-day waits and as the script finishes, under generated and (thorough) enumerated single preemptions; each run is checked for promptness in virtual time, at most one further command, the fate of the next / queued / re-queued job, and for deadlock or a lost stop (step limit).',
     design='DESIGN.md sections 2.6 and 3, C09',
     note='"Promptly" is bounded liveness (two ticks + command in progress, step budget). One open finding is recorded and excluded by construction: a stop that arrives before the job thread has entered the run loop is lost.'),
+ 'C10': dict(
+    technique='discrete-event oracle in virtual time over the real Machine / Clock / JobControl on the deterministic scheduler: Hypothesis-generated delay / work / time-of-day sequences, tick lengths, wall-clock starts and clock-vs-script preemptions',
+    category='exploration',
+    text='For generated scripts every delay request (value, call time, return time), every tick and every clock reset is recorded in exact virtual time and compared with the cumulative due times D_k: never early, immediate when already behind (no accumulated lateness), at a tick no later than D_k + 1 tick (2 under preemption), no request for a zero delay, raw units in milliseconds, time-of-day waits end within 2 ticks of the first matching minute and restart the time line.',
+    design='DESIGN.md sections 2.6 and 3, C10',
+    note='Computation is instantaneous in virtual time except for device work charged by the simulated devices; durations are dyadic so the comparisons are exact.'),
 }
 PENDING_REASON = 'check not built yet in this session; planned as described in DESIGN.md (property-based / fuzzing check, same runner)'
 
